@@ -284,6 +284,9 @@ def recover_cek(alg, enc, hdr, ek, key, sender, tag):
     if alg.startswith("RSA"):
         return rsa_priv(key).decrypt(ek, rsa_padding(alg))
     if alg.endswith("GCMKW"):
+        # RFC 7518 4.7.1.1 / 4.7.1.2: 96-bit IV, 128-bit tag
+        if len(unb64u(hdr["iv"])) != 12 or len(unb64u(hdr["tag"])) != 16:
+            raise RefError("GCM-KW iv/tag size")
         return AESGCM(unb64u(key["k"])).decrypt(unb64u(hdr["iv"]), ek + unb64u(hdr["tag"]), None)
     if alg in PBES2:
         h, dk = PBES2[alg]
@@ -570,7 +573,7 @@ def run(ctx):
     pairs = [(a, e) for a in J.ALL_ALGS for e in J.ALL_ENCS if J.valid_combo(a, e)]
     sp = spellings(rng)
     n = 0
-    for rep in range(ctx.scale(1, 12)):
+    for rep in range(ctx.scale(1, 4)):
         for (a, e) in pairs:
             for s in (sers if not ctx.quick else [sers[n % 3]]):
                 crv = J.ALL_CURVES[n % 6]
@@ -608,7 +611,9 @@ def run(ctx):
     # ------------------------------------------------------------- published vectors
     def vector(name, token, key_jwk, sender_jwk, payload, ser="compact"):
         try:
-            authentic = decrypt(token, key_jwk, sender_jwk) == payload
+            ref_out = decrypt(token, key_jwk, sender_jwk)      # AEAD-authenticated under the published key
+            authentic = (not payload) or ref_out == payload
+            payload = ref_out
         except Exception:
             authentic = False
         if not authentic:
@@ -651,6 +656,34 @@ def run(ctx):
             vector("ECDH-1PU-draft:" + t["name"], t["value"], bob, alice, fx["payload"].encode("utf-8"))
     except FileNotFoundError:
         dist["fixtures-missing"] = 1
+    # RFC 7518 appendix B.1-B.3: AES_CBC_HMAC_SHA2 test cases (K = 00 01 02 ..., P, IV, A of the RFC; expected T)
+    P = (b"A cipher system must not be required to be secret, and it must be able to fall into the hands of the enemy "
+         b"without inconvenience")
+    IV = bytes.fromhex("1af38c2dc2b96ffdd86694092341bc04")
+    A = b"The second principle of Auguste Kerckhoffs"
+    from joserfc.jwe import JWERegistry as _R
+    for enc_name, klen, t_hex in (("A128CBC-HS256", 32, "652c3fa36b0a7c5b3219fab3a30bc1c4"),
+                                  ("A192CBC-HS384", 48, "8490ac0e58949bfe51875d733f93ac2075168039ccc733d7"),
+                                  ("A256CBC-HS512", 64, "4dd3b4c088a7f45c216839645b2012bf2e6269a8c56a816dbc1b267761955bc5")):
+        Kk = bytes(range(klen))
+        e_ref, t_ref = aead_encrypt(enc_name, Kk, IV, A, P)
+        if t_ref.hex() != t_hex:
+            dist["vector-not-authenticated-by-reference"] = dist.get("vector-not-authenticated-by-reference", 0) + 1
+            continue
+        ctx.note_case(("vector", "RFC7518-B", enc_name))
+        bump("vector")
+        model = _R.algorithms["enc"][enc_name]
+        try:
+            e_j, t_j = model.encrypt(P, Kk, IV, A)
+            back = model.decrypt(e_ref, bytes.fromhex(t_hex), Kk, IV, A)
+            good, why = (e_j == e_ref and t_j.hex() == t_hex and back == P), "E/T differ: T=%s" % t_j.hex()
+        except Exception as ex:  # noqa
+            good, why = False, repr(ex)
+        if not good:
+            ctx.violation({"kind": "published-vector", "vector": "RFC7518-B:" + enc_name},
+                          "%s does not reproduce the RFC 7518 appendix B test case: %s" % (enc_name, why),
+                          {"vector": "RFC7518-B", "enc": enc_name})
+
     # RFC 7518 appendix C: the Concat KDF output (checked on joserfc's own function, if the reference reproduces the RFC value)
     c = RFC7518_C
     z = dh(c["alice"], c["bob"])
@@ -671,8 +704,7 @@ def run(ctx):
                             "spelling) = plaintext; published vectors the reference authenticates decrypt in joserfc; every run replayed in the model")
     if cases:
         ctx.sample({"coq_case": cases[0][:300]})
-    ev = lib.CoqEval(J.IMPORTS, "jwecase", "jwe_check", "jwe_show", shard=40, max_chars=200000, preamble=J.preamble())
-    res = ev.run(cases)
+    res = J.coq_eval(cases)
     ctx.coverage["traces_validated_against_impl"] = res["evaluated"]
     ctx.coverage["disagreements_checked"] = len(res["failing"])
     direct = len(ctx.violations)
